@@ -46,6 +46,9 @@ Parse(prog) == [i \in 1..Len(prog) |->
     [] it.k = "ins" -> Mk("ins", i, 4, LiteralBase(it), it.m, it.a, it.b, "", "", 0)
     [] it.k = "br" -> Mk("br", i, 4, None, it.m, it.a, it.b, it.t, "", 0)
     [] it.k = "jal" -> Mk("jal", i, 4, None, "jal", it.a, 0, it.t, "", 0)
+    [] it.k = "const" -> Mk("const", i, 0, None, "", 0, 0, "", "", 0)
+    [] it.k = "brk" -> Mk("brabs", i, 4, None, it.m, it.a, it.b, "", "", it.n)
+    [] it.k = "jalk" -> Mk("jalabs", i, 4, None, "jal", it.a, 0, "", "", it.n)
     [] it.k = "imml" -> Mk("imml", i, 4, None, it.m, it.a, it.b, it.t, it.f, it.n)
     [] it.k = "dw" -> Mk("dw", i, 4, None, "dw", 0, 0, it.t, it.f, it.n)
     [] it.k = "align" -> Mk("align", i, it.n, None, "", 0, 0, "", "", it.n)
@@ -54,7 +57,9 @@ Parse(prog) == [i \in 1..Len(prog) |->
          Mk("pseudo", i, IF it.k \in {"li", "lil"} \/ (it.k = "pj" /\ it.m \in {"call", "tail"}) THEN 8 ELSE 4,
             None, it.m, it.a, it.b, it.t, it.f, it.n) @@ [pk |-> it.k, vb |-> it.b, vc |-> it.c]]
 
-Shrink(lbls, pos, by) == [t \in DOMAIN lbls |-> IF lbls[t] > pos THEN lbls[t] - by ELSE lbls[t]]
+\* (one access to lbls[t] per level: TLC evaluates function constructors lazily, two accesses would make a chain of
+\*  k shrinks cost 2^k)
+Shrink(lbls, pos, by) == [t \in DOMAIN lbls |-> LET v == lbls[t] IN IF v > pos THEN v - by ELSE v]
 
 (* ---------------- resolve_labels ---------------- *)
 RECURSIVE RL(_, _, _, _)
@@ -152,6 +157,8 @@ EncodeOK(it, pos, lbls) ==
     [] it.k = "cbr" -> off % 2 = 0 /\ Between(off, -256, 255)
     [] it.k = "jal" -> LET v == IF it.f = "lo" THEN Lo(Limbs(off)[1], Limbs(off)[2]) ELSE off IN v % 2 = 0 /\ Between(v, -1048576, 1048575)
     [] it.k = "cj" -> off % 2 = 0 /\ Between(off, -2048, 2047)
+    [] it.k = "brabs" -> (it.n - pos) % 2 = 0 /\ Between(it.n - pos, -4096, 4095)
+    [] it.k = "jalabs" -> (it.n - pos) % 2 = 0 /\ Between(it.n - pos, -1048576, 1048575)
     [] it.k = "auipc" -> Between(Hi(Limbs(off)[1], Limbs(off)[2]), -524288, 524287)
     [] it.k = "jalrp" -> LET v == Lo(Limbs(off)[1], Limbs(off)[2]) + 4 IN v % 2 = 0 /\ Between(v, -2048, 2047)
     [] it.k = "imml" -> LET v == FinalVal(it, pos, lbls) IN
